@@ -15,6 +15,28 @@ from rex import base, utils
 from rex.constants import Async, Clock, Jitter, LogLevel, RealTimeFactor, Scheduling
 from rex.node import BaseNode, Connection
 
+import os as _os
+
+_VERIF = _os.environ.get("REX_VERIF", "0") == "1"
+_verif_hook = None  # installed by a verification harness; never set in normal operation
+
+
+def _verif_point(name, **info):
+    if _VERIF and _verif_hook is not None:
+        _verif_hook(name, **info)
+
+
+def _verif_wrap(owner, fn):
+    if not (_VERIF and _verif_hook is not None):
+        return fn
+
+    def _wrapped(*args, **kwargs):
+        _verif_point("task_start", owner=owner, fn=getattr(fn, "__name__", "fn"))
+        return fn(*args, **kwargs)
+
+    _wrapped.__name__ = getattr(fn, "__name__", "fn")
+    return _wrapped
+
 
 class _AsyncNodeWrapper:
     def __init__(self, node: BaseNode):
@@ -121,6 +143,8 @@ class _AsyncNodeWrapper:
     def _submit(self, fn, *args, stopping: bool = False, **kwargs):
         with self._lock:
             if self._state in [Async.READY, Async.STARTING, Async.READY_TO_START, Async.RUNNING] or stopping:
+                _verif_point("submit", owner=self.node.name, fn=getattr(fn, "__name__", "fn"))
+                fn = _verif_wrap(self.node.name, fn)
                 f = self._executor.submit(fn, *args, **kwargs)
                 self._q_task.append((f, fn, args, kwargs))
                 f.add_done_callback(self._done_callback)
@@ -864,6 +888,8 @@ class _AsyncConnectionWrapper:
     def _submit(self, fn, *args, stopping: bool = False, **kwargs):
         with self._lock:
             if self._state in [Async.READY, Async.RUNNING] or stopping:
+                _verif_point("submit", owner=f"{self.connection.output_node.name}>{self.connection.input_node.name}", fn=getattr(fn, "__name__", "fn"))
+                fn = _verif_wrap(f"{self.connection.output_node.name}>{self.connection.input_node.name}", fn)
                 f = self._executor.submit(fn, *args, **kwargs)
                 self._q_task.append((f, fn, args, kwargs))
                 f.add_done_callback(self._done_callback)
@@ -1304,8 +1330,10 @@ class _Synchronizer:
 
     def _async_step(self, step_state: base.StepState) -> Tuple[base.StepState, base.Output]:
         """Should not be jitted due to side-effects."""
+        _verif_point("sup:before_append")
         self._f_act = Future()
         self._q_act.append(self._f_act)
+        _verif_point("sup:after_append")
 
         # Prepare new obs future
         _new_f_obs = Future()
@@ -1317,6 +1345,7 @@ class _Synchronizer:
         self._f_obs = _new_f_obs
 
         # Wait for action future's result to be set with action
+        _verif_point("sup:before_check")
         if not self._must_reset:
             try:
                 step_state, output = self._f_act.result()
@@ -1597,10 +1626,12 @@ class AsyncGraph:
 
         # Stop all nodes
         fs = [n._stop(timeout=timeout) for n in self._async_nodes.values()]
+        _verif_point("stop:after_flip")
 
         # Initiate stop (this unblocks the root's step, that is waiting for an action).
         if len(self._synchronizer.action) > 0:
             self._synchronizer.action[-1].cancel()
+        _verif_point("stop:after_cancel")
 
         # Wait for all nodes to stop
         [f.result() for f in fs]  # Wait for all nodes to stop
